@@ -1,10 +1,10 @@
 #!/bin/bash
-# usage: try_seed.sh <seed dir with patch.diff> <property id> — applies the change to /repo, runs the property's quick check
-# (evidence and replays go to a scratch dir), and takes the change out again.
+# usage: try_seed.sh <seed dir with patch.diff> <property id> — applies the change to a scratch copy of /repo (outside /repo
+# and /verif), runs the property's quick check on the copy (evidence and replays go to a scratch dir), removes both.
 SD=$1; P=$2
-OUT=$(mktemp -d /tmp/govc-seedout-XXXX)
-git -C /repo apply $SD/patch.diff || { echo "APPLY-FAILED"; exit 2; }
-VERIF_OUT=$OUT /verif/bin/govc check --property $P --tier quick > $OUT/log 2>&1; rc=$?
-git -C /repo apply -R $SD/patch.diff || echo "REVERT FAILED"
+SC=$(mktemp -d /tmp/govc-seedrepo-XXXX); OUT=$(mktemp -d /tmp/govc-seedout-XXXX)
+rsync -a --exclude=.git /repo/ $SC/
+patch -p1 -s -d $SC -i $SD/patch.diff || { echo "APPLY-FAILED"; rm -rf $SC $OUT; exit 2; }
+VERIF_REPO=$SC VERIF_OUT=$OUT /verif/bin/govc check --property $P --tier quick > $OUT/log 2>&1; rc=$?
 echo "rc=$rc"; grep "^VIOLATION" $OUT/log | sed 's/replay=[^ ]* //' | cut -c1-260; tail -1 $OUT/log | cut -c1-160
-rm -rf $OUT
+rm -rf $SC $OUT
